@@ -681,6 +681,7 @@ class SharesManager(BaseManager):
 
         # First round using the term map
         include_terms = []
+        wildcard_term_groups = []
         for term in search_query.include_terms:
             subterms = re.split(_QUERY_CLEAN_PATTERN, term)
             for subterm in subterms:
@@ -707,16 +708,19 @@ class SharesManager(BaseManager):
                     if not matching_terms:  # Optimization
                         return [], []
 
-                    include_terms.extend(matching_terms)
+                    wildcard_term_groups.append(matching_terms)
                 else:
                     if subterm not in self._term_map:  # Optimization
                         return [], []
 
                     include_terms.append(subterm)
 
-        found_items = set(self._term_map[include_terms[0]])
-        for include_term in include_terms:
-            found_items &= set(self._term_map[include_term])
+        item_sets = [set(self._term_map[include_term]) for include_term in include_terms]
+        for term_group in wildcard_term_groups:
+            item_sets.append(
+                set().union(*[self._term_map[term] for term in term_group]))
+
+        found_items = set.intersection(*item_sets)
 
         # Regular expressions on the remaining items
 
